@@ -1,0 +1,6 @@
+//go:build !verif
+// +build !verif
+
+package watch
+
+func verifWatch(string, string, string, string) {}
